@@ -139,8 +139,9 @@ def run_property(prop, tier, seed):
             else:
                 failed.append(ob)
         if c.canary and r.out_of_subset is None and r.path_count > 0:
-            if canary_sat == 0 and canary_total > 0 and canary_unknown == 0:
-                faults.append(f'{c.id}: canary (a deliberately false postcondition) was "proved" on every path - vacuous contract?')
+            if canary_sat == 0 and canary_total > 0 and canary_unknown == 0 and not failed:
+                proof_lost.append({'contract': c.id, 'obligations': [f'{c.id}.cover'], 'search': None, 'details': [],
+                                   'reason': 'the cover clause of the contract (a behaviour that must be reachable) is unreachable on every path: the contract has become vacuous for it'})
             canaries_refuted += canary_sat
         # known findings identified by (clause, path tag): the obligation is set aside, a line is printed while it is still refuted
         for f in [f for f in known if f.get('contract') == c.id and f.get('status') == 'known' and f.get('path_tag')]:
